@@ -273,13 +273,18 @@ func (s *clientSocket) Disconnect() {
 	// DISCONNECT packet would be addressed to a namespace the connection has left. The server
 	// closes the whole connection then, with the sockets of the other namespaces.
 	s.stateMu.Lock()
-	connected := s.state == clientSocketConnStateConnected || s.state == clientSocketConnStateConnectPending
+	state := s.state
+	connected := state == clientSocketConnStateConnected || state == clientSocketConnStateConnectPending
 	if connected {
 		s.state = clientSocketConnStateDisconnected
 	}
 	s.stateMu.Unlock()
 
-	if connected && s.manager.connected() {
+	// While the reply to the CONNECT packet is pending, the DISCONNECT packet is not sent here.
+	// The CONNECT packet is sent on a goroutine of its own and might not be out yet: a DISCONNECT
+	// packet that overtakes it is addressed to a namespace the connection has not joined, and
+	// the server closes the whole connection then. `onConnect` sends it when the reply arrives.
+	if state == clientSocketConnStateConnected && s.manager.connected() {
 		s.debug.Log("Performing disconnect", s.namespace)
 		s.sendControlPacket(parser.PacketTypeDisconnect, nil)
 	}
@@ -440,6 +445,13 @@ func (s *clientSocket) onConnect(_ *parser.PacketHeader, decode parser.Decode) {
 	s.stateMu.Lock()
 	if !s.manager.connected() {
 		s.stateMu.Unlock()
+		return
+	}
+	if s.state != clientSocketConnStateConnectPending {
+		// `Disconnect` was called while the reply was pending (see there).
+		// The server has a socket for this namespace now. Tell it to drop it.
+		s.stateMu.Unlock()
+		s.sendControlPacket(parser.PacketTypeDisconnect, nil)
 		return
 	}
 	s.setID(SocketID(v.SID))
